@@ -16,11 +16,15 @@ package main
 import (
 	"crypto/rand"
 	"encoding/binary"
+	"encoding/json"
 	"flag"
 	"fmt"
 	"io"
 	mrand "math/rand"
 	"net"
+	"os"
+	"os/exec"
+	"strings"
 	"sync"
 	"time"
 
@@ -150,7 +154,10 @@ func (s *kpasswdSim) handle(req []byte) []byte {
 		return nil
 	}
 	var cd kadmin.ChangePasswdData
-	if _, err := asn1.Unmarshal(priv.DecryptedEncPart.UserData, &cd); err != nil {
+	if binary.BigEndian.Uint16(req[2:4]) == 1 {
+		// the original change-password request (RFC 3244 section 2, version 1): the user data is the new password itself
+		cd.NewPasswd = priv.DecryptedEncPart.UserData
+	} else if _, err := asn1.Unmarshal(priv.DecryptedEncPart.UserData, &cd); err != nil {
 		return nil
 	}
 	user := ap.Ticket.DecryptedEncPart.CName.PrincipalNameString()
@@ -239,6 +246,7 @@ func cmdKPasswd(args []string) error {
 	seed := fs.Int64("seed", 1, "seed")
 	rounds := fs.Int("rounds", 6, "rounds")
 	out := fs.String("out", "trace.ndjson", "trace file")
+	mitRef := fs.String("mitref", "", "path of the mitref binary: MIT's client changes the password at the simulated service too")
 	fs.Parse(args)
 	r := mrand.New(mrand.NewSource(*seed))
 	tw, err := newTrace(*out)
@@ -347,6 +355,33 @@ func cmdKPasswd(args []string) error {
 			if newIdx > 0 {
 				login(newIdx - 1)
 			}
+		}
+		if *mitRef != "" {
+			// an independent client at the simulated service: MIT's krb5_change_password (request version 1); the service must apply
+			// it, MIT must read the reply as success, and the new password must work afterwards
+			newIdx := next
+			label[pwOf(newIdx)] = fmt.Sprintf("p%d", newIdx)
+			cf := fmt.Sprintf("%s/kpw_%d_%d.conf", os.TempDir(), os.Getpid(), round)
+			if err := os.WriteFile(cf, []byte(conf), 0600); err != nil {
+				return err
+			}
+			sim.mu.Lock()
+			sim.mode = "genuine"
+			sim.mu.Unlock()
+			cmd := exec.Command(*mitRef)
+			cmd.Env = append(os.Environ(), "KRB5_CONFIG="+cf)
+			cmd.Stdin = strings.NewReader(fmt.Sprintf("chpw %s@%s %s %s\n", user, realm, pwOf(cur), pwOf(newIdx)))
+			ob, _ := cmd.Output()
+			os.Remove(cf)
+			var mo struct {
+				RC     int `json:"rc"`
+				Stage  int `json:"stage"`
+				Result int `json:"result"`
+			}
+			json.Unmarshal(ob, &mo)
+			flush()
+			tw.emit(map[string]interface{}{"ev": "mitclient", "u": user, "new": label[pwOf(newIdx)], "stage": mo.Stage, "rc": mo.RC, "result": mo.Result})
+			login(newIdx)
 		}
 		sim.close()
 		k.close()
